@@ -76,9 +76,9 @@ Section Avail.
     rewrite insert_sorted_perm. now constructor.
   Qed.
 
-  Theorem available_names_nodup F : NoDup (map d_name (available dk roots s F)).
+  Theorem available_names_nodup F : NoDup (map d_name (available_cold dk roots s F)).
   Proof.
-    unfold available.
+    unfold available_cold.
     eapply Permutation_NoDup; [apply Permutation_map; symmetry; apply isort_perm|].
     apply add_first_ND, add_first_ND.
     destruct F as [|f dir]; [apply add_last_ND; constructor|].
@@ -89,9 +89,9 @@ Section Avail.
   Qed.
 
   (** every entry is a definition known to the index *)
-  Theorem available_entries_known F d : In d (available dk roots s F) -> In d (defs s).
+  Theorem available_entries_known F d : In d (available_cold dk roots s F) -> In d (defs s).
   Proof.
-    unfold available. intros H. apply (Permutation_in _ (isort_perm _ _)) in H. revert H.
+    unfold available_cold. intros H. apply (Permutation_in _ (isort_perm _ _)) in H. revert H.
     assert (K : forall acc : list fdef, (forall x, In x acc -> In x (defs s)) -> forall p,
               forall x, In x (add_first s p acc) -> In x (defs s)).
     { intros acc Ha p. unfold add_first. revert acc Ha. induction (def_names s) as [|n names IH]; intros acc Ha x; cbn; [apply Ha|].
